@@ -175,7 +175,8 @@ def audit(module):
     with open(path, "w") as fh:
         fh.write(src)
     try:
-        rc, out = sh(["lake", "env", "lean", path], cwd=LEAN, timeout=1800)
+        with build_lock("lake"):
+            rc, out = sh(["lake", "env", "lean", path], cwd=LEAN, timeout=1800)
     finally:
         os.unlink(path)
     res = {}
@@ -466,7 +467,8 @@ class Ctx:
             self.broke("proof", module, f"axiom audit failed: {bad[:5]} raw={raw[-500:]}")
             return False
         if self.thorough:
-            rc, out = sh(["lake", "env", "leanchecker", module], cwd=LEAN, timeout=3600)
+            with build_lock("lake"):
+                rc, out = sh(["lake", "env", "leanchecker", module], cwd=LEAN, timeout=3600)
             self.cov["leanchecker_rc"] = rc
             if rc != 0:
                 self.broke("proof", module, "leanchecker: " + out[-1000:])
